@@ -336,6 +336,12 @@ var Schemas = []Schema{
 	{"stmt-labeled-break", func(g *G) *Change {
 		return &Change{Kind: "stmts", Meta: mv("l", "identifier"), Lines: lines("-break «l»", "+continue «l»")}
 	}},
+	{"stmt-ctx-call-dots-above-if-replaced", func(g *G) *Change {
+		// elisions of two kinds in the replaced statement, an elision of the first kind on a context line further up:
+		// which '-' elision a '+' elision belongs to does not depend on the columns they are written at
+		return &Change{Kind: "stmts", Meta: mv("c", "identifier", "d", "identifier"), Lines: lines(" «c», «d» := setup(‹1:args›)", " defer «d»()",
+			"-if err := target(‹2:args›); err != nil {", "-  ‹3:stmts›", "-}", "+if err := repl(‹2:args›); err != nil {", "+  ‹3:stmts›", "+}")}
+	}},
 	{"stmt-ctx-two-dots", func(g *G) *Change {
 		return &Change{Kind: "stmts", Meta: mv("x", "expression"), Lines: lines(" target(‹1:args›, «x», ‹2:args›)", "+after(«x»)")}
 	}},
